@@ -45,6 +45,8 @@ var (
 	// CKKS chains: enough modulus below the top for GetMinimumLevelForRefresh(128, scale, N, Q) to have room
 	ChainCK40 = Chain{"ck40", 4, []int{60, 50, 50, 40, 40, 40}, []int{61}, false}
 	ChainCK25 = Chain{"ck25", 5, []int{55, 50, 50, 25, 25}, []int{56}, false}
+	// high-precision CKKS: scale 2^90 (two 45-bit primes per rescale), enough modulus for lambda=128 masks
+	ChainCK90   = Chain{"ck90", 4, []int{60, 60, 60, 55, 45, 45, 45, 45}, []int{61, 61}, false}
 	ChainCK40CI = Chain{"ck40ci", 4, []int{60, 50, 50, 40, 40, 40}, []int{61}, true}
 	ChainCK25CI = Chain{"ck25ci", 5, []int{55, 50, 50, 25, 25}, []int{56}, true}
 	// output parameter sets of the parameter-switching masked transforms: another chain of the same degree, and the
